@@ -8,6 +8,9 @@ CELLS = {'ortho': np.array([[10.5, 0, 0], [0, 11.25, 0], [0, 0, 13.0]]),
          'tri2': np.array([[9.0, 0, 0], [-3.0, 8.0, 0], [2.0, -1.0, 7.5]]),
          # cells that are not in the standard orientation (a along x, b in the xy plane): an upper-triangular one and a rotated triclinic one
          'upper': np.array([[10.5, 2.0, -1.5], [0, 11.25, 1.75], [0, 0, 13.0]]),
+         # two right angles only: hexagonal (gamma = 120) and monoclinic in the c-unique setting
+         'hex': np.array([[10.0, 0, 0], [-5.5, 9.526279441628825, 0], [0, 0, 13.0]]),
+         'mono-c': np.array([[10.5, 0, 0], [2.5, 11.0, 0], [0, 0, 12.25]]),
          'rot': np.array([[10.5, 0, 0], [1.5, 11.25, 0], [-2.25, 0.75, 13.0]]).dot(
              np.array([[0.36, 0.48, -0.8], [-0.8, 0.6, 0.0], [0.48, 0.64, 0.6]]))}
 
@@ -196,7 +199,7 @@ REPLAY = {'cif': replay}
 
 def run(rec, tier, seed):
     rec.rule = ("generated structures (1-6 atoms; per-atom elements or explicit types where two types share an element; bonds, angles, dihedrals, "
-                "impropers, also single kinds such as impropers without dihedrals; extra atom / bond / angle / torsion columns) in 5 cells (two of them not in the standard orientation), coordinates inside / outside / on the boundary (0, 1, 0.99996), "
+                "impropers, also single kinds such as impropers without dihedrals; extra atom / bond / angle / torsion columns) in 7 cells (two not in the standard orientation, two with exactly two right angles), coordinates inside / outside / on the boundary (0, 1, 0.99996), "
                 "fractional and Cartesian output: write -> read -> compare -> rewrite to identical text; comparison with ase.io.read; hand-written "
                 "files with uncertainties in parentheses; 25 space-group names (P1 spellings accepted, everything else rejected). distinct = specs")
     k = 0
